@@ -196,4 +196,109 @@ Section Twin.
     - rewrite e, <- Hf2, Hf1. replace ka with (ia + (ka - ia))%nat by lia. apply HA.
     - apply HB. lia.
   Qed.
+
+  (** no applied child, in a twin state, of a block that is a top of one of the two chains *)
+  Lemma twin_no_child : forall s ia ib x, twin s ia ib -> x <> r0 ->
+      (forall k, up l0 (ia + k) t <> r0 -> parent l0 (up l0 (ia + k) t) <> x) ->
+      (forall i, (ib <= i < kb)%nat -> parent l0 (up l0 i c) <> x) ->
+      child_active ccmd (blocks _ _ s) x = false.
+  Proof.
+    intros s ia ib x T Hxr HAp HBp. pose proof T as (F & G & _). pose proof G as ((W & _) & _ & _).
+    apply not_true_iff_false. intro H. unfold child_active in H. apply existsb_exists in H.
+    destruct H as (cb & Hin & Hcc). apply andb_prop in Hcc. destruct Hcc as [Hcc Ac]. apply andb_prop in Hcc. destruct Hcc as [Pc Nc].
+    apply N.eqb_eq in Pc.
+    assert (ND : NoDup (ids (blocks _ _ s))) by (destruct W as (ND & _); unfold ids; unfold cores in ND; rewrite map_map in ND; exact ND).
+    pose proof (find_in_blocks _ _ ND Hin) as Fc. pose proof (find_cfind _ _ _ Fc) as Cc.
+    assert (Hca : is_act (cores s) (b_id ccmd cb)) by (exists (core cb); split; [exact Cc|exact Ac]).
+    assert (Hcr : b_id ccmd cb <> r0).
+    { intro Heq. destruct (wf_act_closed _ W) as (_ & Pr & _). apply Hxr. rewrite <- Pc.
+      pose proof Fc as Fc2. rewrite Heq, <- (fr_root _ _ F) in Fc2. rewrite (Pr cb Fc2). apply (fr_root _ _ F). }
+    assert (Hpar : parent l0 (b_id ccmd cb) = x).
+    { rewrite <- (static_parent s _ F). unfold parent. rewrite Cc. exact Pc. }
+    destruct (twin_exact s ia ib T _ Hca) as [(k & Hk)|(i & Hi & Hk)]; rewrite Hk in Hpar, Hcr.
+    - exact (HAp k Hcr Hpar).
+    - exact (HBp i Hi Hpar).
+  Qed.
+
+  Lemma parent_up_c : forall i, parent l0 (up l0 i c) = up l0 (S i) c.
+  Proof. intros i. rewrite up_succ_r. reflexivity. Qed.
+  Lemma parent_up_t : forall i, parent l0 (up l0 i t) = up l0 (S i) t.
+  Proof. intros i. rewrite up_succ_r. reflexivity. Qed.
+
+  (* B-part blocks are pairwise different and different from the fork *)
+  Lemma c_inj : forall i j, (i <= kb)%nat -> (j <= kb)%nat -> up l0 i c = up l0 j c -> i = j.
+  Proof. intros i j Hi Hj H. pose proof (hgt_c i ltac:(lia)) as E1. pose proof (hgt_c j ltac:(lia)) as E2. rewrite H in E1. lia. Qed.
+
+  (** unapply the top of the candidate part *)
+  Lemma twin_unapplyB : forall s ia ib, twin s ia ib -> (ib < kb)%nat ->
+      exists s', c_unapplyBlock s (up l0 ib c) = Ok s' /\ twin s' ia (S ib).
+  Proof.
+    intros s ia ib T Hlt. pose proof T as (F & G & Hia & Hib & HA & HB & Hn). pose proof G as ((W & K) & _ & _).
+    set (x := up l0 ib c).
+    assert (Hxa : is_act (cores s) x) by (apply HB; lia).
+    assert (Hxr : x <> r0) by (apply c_not_root; exact Hlt).
+    destruct (is_act_find _ _ Hxa) as (b & Fb & Ab). pose proof (find_cfind _ _ _ Fb) as Cb.
+    assert (Hpar : b_par ccmd b = up l0 (S ib) c).
+    { rewrite <- parent_up_c. fold x. rewrite <- (static_parent s x F). unfold parent. rewrite Cb. reflexivity. }
+    assert (Hpact : is_act (cores s) (up l0 (S ib) c)).
+    { destruct (Nat.eq_dec (S ib) kb) as [e|n].
+      - rewrite e, <- Hf2, Hf1. replace ka with (ia + (ka - ia))%nat by lia. apply HA.
+      - apply HB. lia. }
+    destruct (is_act_find _ _ Hpact) as (pb & Fpb & Apb). rewrite <- Hpar in Fpb.
+    assert (Hnc : child_active ccmd (blocks _ _ s) x = false).
+    { apply (twin_no_child s ia ib x T Hxr).
+      - intros k _ Hp. rewrite parent_up_t in Hp. exact (c_vs_t ib (S (ia + k)) Hlt (eq_sym Hp)).
+      - intros i Hi Hp. rewrite parent_up_c in Hp. apply c_inj in Hp; lia. }
+    assert (Hn0 : napp _ _ s <> 0%N).
+    { destruct t_found as (et & Het). destruct (dep_facts s0 t et W0 K0 Het) as (Dt & _). unfold dep in *. lia. }
+    assert (E : exists s', c_unapplyBlock s x = Ok s').
+    { unfold c_unapplyBlock, unapplyBlock. rewrite Fb. rewrite <- (fr_root _ _ F) in Hxr. apply N.eqb_neq in Hxr. rewrite Hxr. rewrite Ab. cbn [negb]. rewrite Fpb, Apb. cbn [negb].
+      rewrite Hnc. apply N.eqb_neq in Hn0. rewrite Hn0. eexists. reflexivity. }
+    destruct E as (s' & E). exists s'. split; [exact E|].
+    destruct (unapply_core _ _ _ W E) as (W1 & C1 & N1 & R1 & T1 & _ & _).
+    assert (S1 : same_static (cores s) (cores s')) by (rewrite C1; apply same_static_cupd).
+    split; [eapply frame_trans; [exact F|constructor; assumption]|]. split; [eapply ginv_unapply; eassumption|].
+    split; [exact Hia|]. split; [lia|]. split; [|split].
+    - intros k. rewrite C1. apply is_act_cupd_other; [apply HA|right]. intro Heq. exact (c_vs_t ib (ia + k) Hlt (eq_sym Heq)).
+    - intros i Hi. rewrite C1. apply is_act_cupd_other; [apply HB; lia|right]. intro Heq. apply c_inj in Heq; lia.
+    - lia.
+  Qed.
+
+  (** unapply the top of the active-chain part *)
+  Lemma twin_unapplyA : forall s ia ib, twin s ia ib -> (ia < ka)%nat ->
+      exists s', c_unapplyBlock s (up l0 ia t) = Ok s' /\ twin s' (S ia) ib.
+  Proof.
+    intros s ia ib T Hlt. pose proof T as (F & G & Hia & Hib & HA & HB & Hn). pose proof G as ((W & K) & _ & _).
+    set (x := up l0 ia t).
+    assert (Hxa : is_act (cores s) x) by (unfold x; replace ia with (ia + 0)%nat by lia; apply HA).
+    assert (Hxr : x <> r0) by (apply t_not_root; exact Hlt).
+    destruct (is_act_find _ _ Hxa) as (b & Fb & Ab). pose proof (find_cfind _ _ _ Fb) as Cb.
+    assert (Hpar : b_par ccmd b = up l0 (S ia) t).
+    { rewrite <- parent_up_t. fold x. rewrite <- (static_parent s x F). unfold parent. rewrite Cb. reflexivity. }
+    assert (Hpact : is_act (cores s) (up l0 (S ia) t)) by (replace (S ia) with (ia + 1)%nat by lia; apply HA).
+    destruct (is_act_find _ _ Hpact) as (pb & Fpb & Apb). rewrite <- Hpar in Fpb.
+    pose proof (hgt_t ia ltac:(lia)) as Hhx. fold x in Hhx.
+    assert (Hnc : child_active ccmd (blocks _ _ s) x = false).
+    { apply (twin_no_child s ia ib x T Hxr).
+      - intros k Hr Hp. rewrite parent_up_t in Hp. destruct (up_t_cases (S (ia + k))) as [[Hk Hh]|Hr2].
+        + rewrite Hp, Hhx in Hh. lia.
+        + rewrite Hp in Hr2. exact (Hxr Hr2).
+      - intros i Hi Hp. rewrite parent_up_c in Hp. destruct (Nat.eq_dec (S i) kb) as [e|n].
+        + rewrite e, <- Hf2 in Hp. pose proof hgt_fork_t as Hf. rewrite Hp, Hhx in Hf. lia.
+        + exact (c_vs_t (S i) ia ltac:(lia) Hp). }
+    assert (Hn0 : napp _ _ s <> 0%N).
+    { destruct t_found as (et & Het). destruct (dep_facts s0 t et W0 K0 Het) as (Dt & _). unfold dep in *. lia. }
+    assert (E : exists s', c_unapplyBlock s x = Ok s').
+    { unfold c_unapplyBlock, unapplyBlock. rewrite Fb. rewrite <- (fr_root _ _ F) in Hxr. apply N.eqb_neq in Hxr. rewrite Hxr. rewrite Ab. cbn [negb]. rewrite Fpb, Apb. cbn [negb].
+      rewrite Hnc. apply N.eqb_neq in Hn0. rewrite Hn0. eexists. reflexivity. }
+    destruct E as (s' & E). exists s'. split; [exact E|].
+    destruct (unapply_core _ _ _ W E) as (W1 & C1 & N1 & R1 & T1 & _ & _).
+    assert (S1 : same_static (cores s) (cores s')) by (rewrite C1; apply same_static_cupd).
+    split; [eapply frame_trans; [exact F|constructor; assumption]|]. split; [eapply ginv_unapply; eassumption|].
+    split; [lia|]. split; [exact Hib|]. split; [|split].
+    - intros k. rewrite C1. apply is_act_cupd_other; [replace (S ia + k)%nat with (ia + S k)%nat by lia; apply HA|right].
+      intro Heq. destruct (up_t_cases (S ia + k)) as [[Hk Hh]|Hr2]; [rewrite Heq, Hhx in Hh; lia|rewrite Heq in Hr2; exact (Hxr Hr2)].
+    - intros i Hi. rewrite C1. apply is_act_cupd_other; [apply HB; exact Hi|right]. intro Heq. exact (c_vs_t i ia ltac:(lia) Heq).
+    - lia.
+  Qed.
 End Twin.
